@@ -1350,7 +1350,9 @@ void janet_unmarshal_bytes(JanetMarshalContext *ctx, uint8_t *dest, size_t len) 
 Janet janet_unmarshal_janet(JanetMarshalContext *ctx) {
     Janet ret;
     UnmarshalState *st = (UnmarshalState *)(ctx->u_state);
-    ctx->data = unmarshal_one(st, ctx->data, &ret, ctx->flags);
+    /* One level deeper, like janet_marshal_janet: values nested through abstract types
+     * (channels in channels) count towards the recursion guard */
+    ctx->data = unmarshal_one(st, ctx->data, &ret, ctx->flags + 1);
     return ret;
 }
 
